@@ -36,7 +36,7 @@ G = 'circus.config:get_config'
 
 
 def check(run, ctx):
-    run.each(ctx, [r1, r2, r3, r4, r5, r6])
+    run.each(ctx, [r1, r2, r3, r4, r5, r6, r7])
 
 
 # -- documentation ---------------------------------------------------------------
@@ -428,6 +428,7 @@ def r2(run, ctx):
                     [str(k) for k in keys] + [p + '*' for p in pre]), f, st,
                     "the value of %s is stored as watcher[%s]" % (keys, norm_text(sk)))
     # hooks parsing detail
+    from rules.common import stores_hook_entry
     h = types.get('hooks.*')
     if h:
         txt = ' '.join(norm_text(s) for s in h['body'])
@@ -435,7 +436,7 @@ def r2(run, ctx):
                   astq.has_pattern(txt, '$v.append(False)') and
                   (astq.has_pattern(txt, '$v[1] = to_bool($v[1])') or
                    astq.has_pattern(txt, '$v = [$v[0], to_bool($v[1])]')) and
-                  astq.has_pattern(txt, "watcher['hooks'][$h] = $v"),
+                  stores_hook_entry(list(h['body'])),
                   'hook flag: optional, to_bool, default False', f, h['test'])
     # DefaultConfigParser.dget conversions: every value that can be returned, with the
     # condition under which it is
@@ -860,3 +861,12 @@ def r6(run, ctx):
               'whatever the value (shared with C13 R4, the substitution function '
               'replace_gnu_args._repl): the lookup is by membership and case-folded - a '
               'truthiness test would leave a variable defined as the empty string unexpanded')
+
+
+def r7(run, ctx):
+    from rules import c13
+    run.share(ctx, c13.r1, 'R1', 'R7', "the worker runs with the environment that was built for "
+              "it (shared with C13 R1, the arguments of Popen): get_config gives a watcher without "
+              "copy_env and without env sections an EMPTY environment - Popen(env={}) - and not "
+              "passing it at all makes the worker inherit the daemon's",
+              keep=lambda key: 'Popen env' in key)
